@@ -109,6 +109,9 @@ func (m *Machine) checkListings(s *Snap, ord []*JobRec) {
 	}
 	// (3) every accepted job is found by id
 	for _, j := range ord {
+		if j.MaybePurged {
+			continue
+		}
 		found := false
 		err := m.w.PR.ReadJob(j.ID, func(pj *prunner.PipelineJob) { found = pj.ID == j.ID })
 		if err != nil || !found {
@@ -133,6 +136,15 @@ func (m *Machine) checkListings(s *Snap, ord []*JobRec) {
 	if !reflect.DeepEqual(apiP, s.Pipelines) && !(len(apiP) == 0 && len(s.Pipelines) == 0) {
 		m.fail("C15", "GET /pipelines/jobs lists pipelines %v, the runner reports %v", apiP, s.Pipelines)
 	}
+	// jobs of pipelines that are no longer defined can be purged at any moment by the automatic save
+	s = m.defined(s)
+	var listed []apiJob
+	for _, aj := range resp.Jobs {
+		if _, ok := s.Jobs[uuid.FromStringOrNil(aj.ID)]; ok || m.w.Jobs[uuid.FromStringOrNil(aj.ID)] == nil {
+			listed = append(listed, aj)
+		}
+	}
+	resp.Jobs = listed
 	if len(resp.Jobs) != len(s.Jobs) {
 		m.fail("C15", "GET /pipelines/jobs lists %d jobs, the runner has %d", len(resp.Jobs), len(s.Jobs))
 	}
@@ -211,7 +223,7 @@ func (m *Machine) checkListings(s *Snap, ord []*JobRec) {
 		orders[key] = o
 	}
 	// detail of one job and of an unknown id
-	if len(ord) > 0 {
+	if len(ord) > 0 && m.snap.Jobs[ord[len(ord)-1].ID] != nil && !ord[len(ord)-1].MaybePurged {
 		j := ord[len(ord)-1]
 		code, body := m.w.get("/job/detail?id=" + j.ID.String())
 		var aj apiJob
@@ -231,4 +243,9 @@ func defKey(j *JobRec) string {
 		parts = append(parts, fmt.Sprintf("%s<-%v", n, d))
 	}
 	return j.Pipeline + "|" + strings.Join(parts, ";")
+}
+
+func (m *Machine) isDefined(p string) bool {
+	_, ok := m.w.Defs.Pipelines[p]
+	return ok
 }
